@@ -1,6 +1,7 @@
 import QuantemModel.Model.Drift
 import QuantemModel.Lemmas.Registration
 import Mathlib.Tactic.IntervalCases
+import Mathlib.Algebra.BigOperators.Intervals
 /-!
 Helper lemmas for Props/C15.lean: the drift geometry model (Model/Drift.lean) at the carrier ℝ.
 -/
@@ -201,5 +202,227 @@ theorem rampAt_zero (M N : ℕ) (Fi : FImg ℝ) : rampAt M N Fi 0 0 = Fi := by
   show Cx.mul (Fi k l) ⟨1, 0⟩ = Fi k l
   unfold Cx.mul
   simp
+
+/-! ### Lagrange interpolation reproduces low-degree polynomials -/
+
+/-- three distinct nodes: every polynomial of degree ≤ 2 is reproduced exactly -/
+theorem lagrange3_reproduces (t : ℕ → ℝ) (h01 : t 0 ≠ t 1) (h02 : t 0 ≠ t 2) (h12 : t 1 ≠ t 2)
+    (a0 a1 a2 u : ℝ) :
+    lagrange 3 t (fun i => a0 + a1 * t i + a2 * t i ^ 2) u = a0 + a1 * u + a2 * u ^ 2 := by
+  rw [lagrange3]
+  have e01 : t 0 - t 1 ≠ 0 := sub_ne_zero.mpr h01
+  have e02 : t 0 - t 2 ≠ 0 := sub_ne_zero.mpr h02
+  have e12 : t 1 - t 2 ≠ 0 := sub_ne_zero.mpr h12
+  have e10 : t 1 - t 0 ≠ 0 := sub_ne_zero.mpr h01.symm
+  have e20 : t 2 - t 0 ≠ 0 := sub_ne_zero.mpr h02.symm
+  have e21 : t 2 - t 1 ≠ 0 := sub_ne_zero.mpr h12.symm
+  field_simp
+  ring
+
+/-- four distinct nodes: every polynomial of degree ≤ 3 is reproduced exactly -/
+theorem lagrange4_reproduces (t : ℕ → ℝ) (h01 : t 0 ≠ t 1) (h02 : t 0 ≠ t 2) (h03 : t 0 ≠ t 3)
+    (h12 : t 1 ≠ t 2) (h13 : t 1 ≠ t 3) (h23 : t 2 ≠ t 3) (a0 a1 a2 a3 u : ℝ) :
+    lagrange 4 t (fun i => a0 + a1 * t i + a2 * t i ^ 2 + a3 * t i ^ 3) u
+      = a0 + a1 * u + a2 * u ^ 2 + a3 * u ^ 3 := by
+  rw [lagrange4]
+  have e01 : t 0 - t 1 ≠ 0 := sub_ne_zero.mpr h01
+  have e02 : t 0 - t 2 ≠ 0 := sub_ne_zero.mpr h02
+  have e03 : t 0 - t 3 ≠ 0 := sub_ne_zero.mpr h03
+  have e12 : t 1 - t 2 ≠ 0 := sub_ne_zero.mpr h12
+  have e13 : t 1 - t 3 ≠ 0 := sub_ne_zero.mpr h13
+  have e23 : t 2 - t 3 ≠ 0 := sub_ne_zero.mpr h23
+  have e10 : t 1 - t 0 ≠ 0 := sub_ne_zero.mpr h01.symm
+  have e20 : t 2 - t 0 ≠ 0 := sub_ne_zero.mpr h02.symm
+  have e30 : t 3 - t 0 ≠ 0 := sub_ne_zero.mpr h03.symm
+  have e21 : t 2 - t 1 ≠ 0 := sub_ne_zero.mpr h12.symm
+  have e31 : t 3 - t 1 ≠ 0 := sub_ne_zero.mpr h13.symm
+  have e32 : t 3 - t 2 ≠ 0 := sub_ne_zero.mpr h23.symm
+  field_simp
+  ring
+
+theorem basis2 : linspace (0 : ℝ) 1 2 0 = 0 ∧ linspace (0 : ℝ) 1 2 1 = 1 := by
+  constructor <;> (rw [linspace_eq (le_refl 2) _ _ (by norm_num)]; norm_num)
+
+theorem basis3 : linspace (0 : ℝ) 1 3 0 = 0 ∧ linspace (0 : ℝ) 1 3 1 = 1 / 2 ∧ linspace (0 : ℝ) 1 3 2 = 1 := by
+  refine ⟨?_, ?_, ?_⟩ <;> (rw [linspace_eq (by norm_num) _ _ (by norm_num)]; norm_num)
+
+theorem basis4 : linspace (0 : ℝ) 1 4 0 = 0 ∧ linspace (0 : ℝ) 1 4 1 = 1 / 3 ∧ linspace (0 : ℝ) 1 4 2 = 2 / 3 ∧
+    linspace (0 : ℝ) 1 4 3 = 1 := by
+  refine ⟨?_, ?_, ?_, ?_⟩ <;> (rw [linspace_eq (by norm_num) _ _ (by norm_num)]; norm_num)
+
+/-- `np.linspace(a, b, n)` is the affine image of `np.linspace(0, 1, n)` (for every index, also past the end) -/
+theorem linspace_affine {n : ℕ} (hn : 2 ≤ n) (a b : ℝ) (k : ℕ) :
+    linspace a b n k = a + (b - a) * linspace (0 : ℝ) 1 n k := by
+  have hn1 : ¬ n ≤ 1 := by omega
+  unfold linspace
+  rw [if_neg hn1, if_neg hn1]
+  by_cases hl : k + 1 = n
+  · rw [if_pos hl, if_pos hl]; ring
+  · rw [if_neg hl, if_neg hl]
+    simp only [NumReal.ofNat_eq, NumReal.mul_eq, NumReal.div_eq, NumReal.sub_eq, NumReal.add_eq]
+    ring
+
+/-! ### bilinear splat: non-negativity and first moment -/
+theorem sum_hit_row {rows cols : ℕ} (hr : 0 < rows) (hc : 0 < cols) (q : ℤ × ℤ × ℝ) :
+    ∑ i ∈ range rows, ∑ j ∈ range cols, (i : ℝ) * hit rows cols q i j = ((wrap rows q.1 : ℕ) : ℝ) * q.2.2 := by
+  unfold hit
+  have hi : wrap rows q.1 ∈ range rows := mem_range.mpr (wrap_lt hr _)
+  have hj : wrap cols q.2.1 ∈ range cols := mem_range.mpr (wrap_lt hc _)
+  rw [Finset.sum_eq_single_of_mem _ hi, Finset.sum_eq_single_of_mem _ hj]
+  · simp
+  · intro j _ hne
+    rw [if_neg]; · simp
+    intro h; exact hne h.2.symm
+  · intro i _ hne
+    apply Finset.sum_eq_zero
+    intro j _
+    rw [if_neg]; · simp
+    intro h; exact hne h.1.symm
+
+theorem sum_hit_col {rows cols : ℕ} (hr : 0 < rows) (hc : 0 < cols) (q : ℤ × ℤ × ℝ) :
+    ∑ i ∈ range rows, ∑ j ∈ range cols, (j : ℝ) * hit rows cols q i j = ((wrap cols q.2.1 : ℕ) : ℝ) * q.2.2 := by
+  unfold hit
+  have hi : wrap rows q.1 ∈ range rows := mem_range.mpr (wrap_lt hr _)
+  have hj : wrap cols q.2.1 ∈ range cols := mem_range.mpr (wrap_lt hc _)
+  rw [Finset.sum_eq_single_of_mem _ hi, Finset.sum_eq_single_of_mem _ hj]
+  · simp
+  · intro j _ hne
+    rw [if_neg]; · simp
+    intro h; exact hne h.2.symm
+  · intro i _ hne
+    apply Finset.sum_eq_zero
+    intro j _
+    rw [if_neg]; · simp
+    intro h; exact hne h.1.symm
+
+theorem wrap_cast_of_mem {n : ℕ} {z : ℤ} (h0 : 0 ≤ z) (h1 : z < n) : ((wrap n z : ℕ) : ℝ) = (z : ℝ) := by
+  have hn : 0 < n := by omega
+  have := wrap_cast hn z
+  rw [Int.emod_eq_of_lt h0 h1] at this
+  exact_mod_cast this
+
+/-! ### Gaussian filter, `mode="wrap"` -/
+theorem convWrap_eq (n r : ℕ) (w x : ℕ → ℝ) (i : ℕ) :
+    convWrap n r w x i = ∑ d ∈ range (2 * r + 1), w d * x (wrap n ((i : ℤ) + d - r)) := by
+  unfold convWrap; rw [sumN_eq]
+
+theorem convWrap_total {n : ℕ} (r : ℕ) (w x : ℕ → ℝ) :
+    ∑ i ∈ range n, convWrap n r w x i = (∑ d ∈ range (2 * r + 1), w d) * ∑ i ∈ range n, x i := by
+  simp_rw [convWrap_eq]
+  rw [Finset.sum_comm, Finset.sum_mul]
+  refine Finset.sum_congr rfl fun d _ => ?_
+  rw [← Finset.mul_sum]
+  congr 1
+  have := sum_wrap n ((r : ℤ) - d) x
+  rw [← this]
+  refine Finset.sum_congr rfl fun i _ => ?_
+  congr 2; ring
+
+/-! ### Gaussian filter, `mode="reflect"` (the mode the code uses) -/
+
+/-- the extended signal `X z = x[reflect(z)]` -/
+noncomputable def extR (n : ℕ) (x : ℕ → ℝ) (z : ℤ) : ℝ := x (reflIdx n z)
+
+theorem reflIdx_periodic (n : ℕ) (z k : ℤ) : reflIdx n (z + ((2 * n : ℕ) : ℤ) * k) = reflIdx n z := by
+  unfold reflIdx; rw [wrap_add_mul]
+
+theorem reflIdx_mirror {n : ℕ} (hn : 0 < n) (z : ℤ) : reflIdx n (-1 - z) = reflIdx n z := by
+  have h2 : 0 < 2 * n := by omega
+  obtain ⟨k, hk⟩ := wrap_cast_eq h2 z
+  have hlt := wrap_lt h2 z
+  have hw : wrap (2 * n) (-1 - z) = 2 * n - 1 - wrap (2 * n) z := by
+    have e : -1 - z = (((2 * n - 1 - wrap (2 * n) z : ℕ) : ℤ)) + ((2 * n : ℕ) : ℤ) * (k - 1) := by
+      rw [Nat.cast_sub (by omega), Nat.cast_sub (by omega), hk]; push_cast; ring
+    rw [e, wrap_add_mul, wrap_of_lt (by omega)]
+  unfold reflIdx
+  simp only [hw]
+  split_ifs <;> omega
+
+theorem reflIdx_of_lt {n i : ℕ} (hi : i < n) : reflIdx n (i : ℤ) = i := by
+  unfold reflIdx
+  rw [wrap_of_lt (by omega : i < 2 * n)]; simp [hi]
+
+theorem reflIdx_upper {n i : ℕ} (hi : i < n) : reflIdx n (((n + i : ℕ) : ℤ)) = n - 1 - i := by
+  unfold reflIdx
+  rw [wrap_of_lt (by omega : n + i < 2 * n)]
+  have : ¬ (n + i < n) := by omega
+  simp only [this, if_false]; omega
+
+/-- one period of the reflected extension carries twice the total -/
+theorem extR_period_sum (n : ℕ) (x : ℕ → ℝ) :
+    ∑ i ∈ range (2 * n), extR n x (i : ℤ) = 2 * ∑ i ∈ range n, x i := by
+  rw [two_mul n, Finset.sum_range_add]
+  have h1 : ∑ i ∈ range n, extR n x (i : ℤ) = ∑ i ∈ range n, x i :=
+    Finset.sum_congr rfl fun i hi => by unfold extR; rw [reflIdx_of_lt (mem_range.mp hi)]
+  have h2 : ∑ i ∈ range n, extR n x (((n + i : ℕ) : ℤ)) = ∑ i ∈ range n, x i := by
+    rw [← Finset.sum_range_reflect x n]
+    exact Finset.sum_congr rfl fun i hi => by unfold extR; rw [reflIdx_upper (mem_range.mp hi)]
+  rw [h1, h2]; ring
+
+/-- the filtered extension -/
+noncomputable def outR (n r : ℕ) (w x : ℕ → ℝ) (z : ℤ) : ℝ :=
+  ∑ d ∈ range (2 * r + 1), w d * extR n x (z + d - r)
+
+theorem convReflect_eq (n r : ℕ) (w x : ℕ → ℝ) (i : ℕ) : convReflect n r w x i = outR n r w x (i : ℤ) := by
+  unfold convReflect outR extR; rw [sumN_eq]
+
+/-- shifting the extension by any integer does not change its sum over a period -/
+theorem extR_shift_sum {n : ℕ} (hn : 0 < n) (x : ℕ → ℝ) (s : ℤ) :
+    ∑ i ∈ range (2 * n), extR n x ((i : ℤ) - s) = ∑ i ∈ range (2 * n), extR n x (i : ℤ) := by
+  have h2 : 0 < 2 * n := by omega
+  have key : ∀ z : ℤ, extR n x z = (fun j : ℕ => extR n x (j : ℤ)) (wrap (2 * n) z) := by
+    intro z
+    obtain ⟨k, hk⟩ := wrap_cast_eq h2 z
+    simp only [extR]
+    rw [hk, reflIdx_periodic]
+  have := sum_wrap (2 * n) s (fun j : ℕ => extR n x (j : ℤ))
+  rw [← this]
+  exact Finset.sum_congr rfl fun i _ => key _
+
+theorem outR_period_sum {n : ℕ} (hn : 0 < n) (r : ℕ) (w x : ℕ → ℝ) :
+    ∑ i ∈ range (2 * n), outR n r w x (i : ℤ) = (∑ d ∈ range (2 * r + 1), w d) * (2 * ∑ i ∈ range n, x i) := by
+  unfold outR
+  rw [Finset.sum_comm, Finset.sum_mul]
+  refine Finset.sum_congr rfl fun d _ => ?_
+  rw [← Finset.mul_sum]
+  congr 1
+  rw [← extR_period_sum, ← extR_shift_sum hn x ((r : ℤ) - d)]
+  refine Finset.sum_congr rfl fun i _ => ?_
+  congr 1; ring
+
+/-- for a symmetric kernel the filtered extension is mirror-symmetric as well -/
+theorem outR_mirror {n : ℕ} (hn : 0 < n) (r : ℕ) (w x : ℕ → ℝ) (hw : ∀ d, d ≤ 2 * r → w (2 * r - d) = w d) (i : ℕ) :
+    outR n r w x (((n + (n - 1 - i) : ℕ) : ℤ)) = outR n r w x ((i : ℤ)) ∨ n ≤ i := by
+  by_cases hi : n ≤ i
+  · exact Or.inr hi
+  left
+  have hi' : i < n := by omega
+  unfold outR
+  rw [← Finset.sum_range_reflect (fun d => w d * extR n x ((i : ℤ) + d - r)) (2 * r + 1)]
+  refine Finset.sum_congr rfl fun d hd => ?_
+  have hd' : d ≤ 2 * r := by have := mem_range.mp hd; omega
+  have e1 : 2 * r + 1 - 1 - d = 2 * r - d := by omega
+  rw [e1, hw d hd']
+  congr 1
+  unfold extR
+  have : (((n + (n - 1 - i) : ℕ) : ℤ)) + d - r = (-1 - ((i : ℤ) + ((2 * r - d : ℕ) : ℤ) - r)) + ((2 * n : ℕ) : ℤ) * 1 := by
+    rw [Nat.cast_sub hd']
+    have : ((n + (n - 1 - i) : ℕ) : ℤ) = 2 * (n : ℤ) - 1 - i := by omega
+    rw [this]; push_cast; ring
+  rw [this, reflIdx_periodic, reflIdx_mirror hn]
+
+theorem convReflect_total {n : ℕ} (hn : 0 < n) (r : ℕ) (w x : ℕ → ℝ) (hw : ∀ d, d ≤ 2 * r → w (2 * r - d) = w d) :
+    ∑ i ∈ range n, convReflect n r w x i = (∑ d ∈ range (2 * r + 1), w d) * ∑ i ∈ range n, x i := by
+  have hS := outR_period_sum hn r w x
+  rw [two_mul n, Finset.sum_range_add] at hS
+  have h2 : ∑ i ∈ range n, outR n r w x (((n + i : ℕ) : ℤ)) = ∑ i ∈ range n, outR n r w x (i : ℤ) := by
+    rw [← Finset.sum_range_reflect (fun i => outR n r w x (((n + i : ℕ) : ℤ))) n]
+    refine Finset.sum_congr rfl fun i hi => ?_
+    rcases outR_mirror hn r w x hw i with h | h
+    · exact h
+    · exact absurd (mem_range.mp hi) (by omega)
+  rw [h2] at hS
+  simp_rw [convReflect_eq]
+  linarith
 
 end QuantemModel.Drift
